@@ -386,6 +386,8 @@ def R5_weights(ctx):
     pushes = [c for c in b.calls() if c.callee and c.callee.startswith("std::vec::Vec::<T, A>::push")]
     loop = None
     nx = [c for c in b.calls() if c.func.get("method") == "next" and calls_in(tm.call_term(c.term, c.bb), M + "state::state_model::StateModel::indexed_iter")]
+    if len(nx) != 1 and _aligned_positional(ctx, F, b, tm):
+        return
     ctx.check(len(nx) == 1, "loop-over-indexed_iter", "CostModel::new does not loop over state_model.indexed_iter()", b.where())
     if len(nx) == 1:
         loop = innermost_loop(b, nx[0].bb)
@@ -413,6 +415,45 @@ def R5_weights(ctx):
             for g in gets:
                 okn = contains(g[2][1], lambda s: s == nosite(item))
                 ctx.check(okn, "lookup-by-name:%s" % short(g[2][0]), "a weight/rate is not looked up by the feature's own name", p.where())
+
+
+def _aligned_positional(ctx, F, b, tm):
+    """the four per-feature vectors read position by position (iterator chains instead of one loop with four pushes):
+    feature_indices[i] = (name_i, slot_i) of state_model.indexed_iter()[i]; weights / vehicle_rates / network_rates[i] are the
+    entries of their mappings under name_i"""
+    aggs = [x for x in subterms(clean(tm.return_term())) if x[0] == "agg" and x[1].endswith("cost_model::CostModel")]
+    if len(aggs) != 1:
+        return False
+    f = dict(aggs[0][3])
+    I = ("i",)
+    seqs = {}
+    for name in ("feature_indices", "weights", "vehicle_rates", "network_rates"):
+        t = f.get(name)
+        if t is None:
+            return False
+        while t[0] == "call" and len(t[2]) == 1 and re.search(r"Arc::<T>::new$|::into_boxed_slice$|From<.*>>::from$", t[1].split("{")[0]):
+            t = t[2][0]
+        sf = sequence_form(F, b, t, I)
+        if sf is None:
+            return False
+        seqs[name] = sf
+    ii = [x for x in subterms(seqs["feature_indices"][0]) if x[0] == "at" and x[2] == I and contains(x[1], lambda q: q[0] == "call" and q[1].endswith("StateModel::indexed_iter"))]
+    if not ii:
+        return False
+    E = ii[0]
+    NAME, SLOT = ("field", ("field", E, "1"), "0"), ("field", E, "0")
+    fi = seqs["feature_indices"][0]
+    ok_idx = fi[0] == "tuple" and len(fi[1]) == 2 and fi[1][0] == NAME and fi[1][1] == SLOT
+    ctx.check(ok_idx, "index-is-slot", "the stored feature index is not the indexed_iter index of the same feature: %s" % short(fi)[:160], b.where(), detail="(name_i, slot_i)")
+    lens = {frozenset(v[1]) for v in seqs.values()}
+    ctx.check(len(lens) == 1, "aligned-pushes", "the four per-feature vectors do not all have one entry per feature of the state model: %s" % [sorted(short(x)[:40] for x in v[1]) for v in seqs.values()], b.where(), detail="one entry per feature in each vector")
+    for name in ("weights", "vehicle_rates", "network_rates"):
+        e = seqs[name][0]
+        gets = [c for c in calls_in(e) if c[1].startswith("std::collections::HashMap::<K, V, S, A>::get")]
+        okn = len(gets) == 1 and gets[0][2][1] == NAME
+        ctx.check(okn, "lookup-by-name:%s" % (short(gets[0][2][0]) if gets else name), "a weight/rate is not looked up by the feature's own name: %s" % short(e)[:160], b.where())
+    ctx.ok("loop-over-indexed_iter", "positional: every vector is derived from state_model.indexed_iter() in order")
+    return True
 
 
 def S0(ctx):
